@@ -610,7 +610,7 @@ def _watchdog_call(fn):
     return box.get("r", ("hang", None))
 
 
-def real_case(n, k, fails, mode, busy=False, encfail=None, cleanup_raises=False):
+def real_case(n, k, fails, mode, busy=False, encfail=None, cleanup_raises=False, iterfail=False):
     """(canonical outcome, leaked?)"""
     import concurrent.futures
     import threading
@@ -620,6 +620,17 @@ def real_case(n, k, fails, mode, busy=False, encfail=None, cleanup_raises=False)
 
     delay = {0: 0.0, 1: 0.003, 2: 0.0, 3: 0.02}[mode]
     prod = Producer(n, fails, delay=delay, cleanup_raises=cleanup_raises)
+    source = prod
+    if iterfail:
+        # an iterable OBJECT whose __iter__ raises (the producer fails before it yields anything)
+        class _IterFail:
+            def __iter__(self_inner):
+                raise prod.exc
+
+            def close(self_inner):
+                prod.close_calls += 1
+
+        source = _IterFail()
     if encfail is not None:
         # the encfail-th event carries a character the response's charset cannot encode
         inner = prod.gen
@@ -639,7 +650,7 @@ def real_case(n, k, fails, mode, busy=False, encfail=None, cleanup_raises=False)
     if busy:
         pool.pool.submit(blocker.wait)
     try:
-        resp = wr.SendEventResponse(prod, ping_interval=0.005 if (mode == 3 or busy) else 60,
+        resp = wr.SendEventResponse(source, ping_interval=0.005 if (mode == 3 or busy) else 60,
                                     charset="latin-1" if encfail is not None else "utf-8")
         it = resp({}, lambda status, headers: None)
         chunks = []
@@ -768,7 +779,10 @@ def asgi_case(kind, n, d, fails, aw, mode=0, encfail=None):
                 if encfail is not None and i == encfail:
                     yield {"data": "\u65e5"}      # cannot be encoded in latin-1
                 else:
-                    yield {"data": str(i)} if kind == "sse" else b"%d;" % i
+                    if kind == "sse" and mode == 2:
+                        yield {}                       # a field-less heartbeat event: it renders as one line break
+                    else:
+                        yield {"data": str(i)} if kind == "sse" else b"%d;" % i
             for _ in range(aw):
                 await asyncio.sleep(0)
             if mode == 1:
@@ -805,7 +819,8 @@ def asgi_case(kind, n, d, fails, aw, mode=0, encfail=None):
                     sent.append(body)
                     if kind == "sse" and body.startswith(b":"):
                         state["pings"] += 1
-                    elif (kind == "sse" and body.startswith(b"data: ")) or (kind != "sse" and body.endswith(b";")):
+                    elif (kind == "sse" and body.startswith(b"data: ")) or (kind != "sse" and body.endswith(b";")) \
+                            or (kind == "sse" and mode == 2 and body == b"\n"):
                         state["items"] += 1
                     else:
                         state["other"] += 1
@@ -888,6 +903,8 @@ def asgi_case(kind, n, d, fails, aw, mode=0, encfail=None):
             items.append(int(c[6:-2]))
         elif kind != "sse" and c.endswith(b";") and c[:-1].isdigit():
             items.append(int(c[:-1]))
+        elif kind == "sse" and mode == 2 and c == b"\n":
+            items.append(len(items))
     other = state["other"]
     if not st["started"]:
         closed = 0
@@ -939,6 +956,8 @@ def worker_exec(line):
         return out, not clean
     if op == "wsgi_real":
         return real_case(int(a[1]), int(a[2]), a[3] != "0", int(a[4]) if len(a) > 4 else 0)
+    if op == "wsgi_iterfail":
+        return real_case(1, 1, True, int(a[1]) if len(a) > 1 else 0, iterfail=True)
     if op == "wsgi_cleanupfail":
         return real_case(int(a[1]), int(a[2]), False, int(a[3]) if len(a) > 3 else 0, cleanup_raises=True)
     if op == "wsgi_busy":
@@ -1201,6 +1220,10 @@ def oracle_outcome(line, out, asgi=False):
         if dd <= n and len(items) < min(dd, n):
             return "only %d chunks delivered before the disconnect at %d" % (len(items), dd)
         return None
+    if a[0] == "wsgi_iterfail":
+        if d["outcome"] != "end":
+            return "a producer that fails in __iter__: the response call must raise the producer's own exception, got %s" % out
+        return None if not items else "events delivered from a producer that never yielded: %s" % out
     if a[0] == "wsgi_busy":
         return None if int(d["closed"]) == 0 and not items else "relay was cancelled before it started, yet %s" % out
     if a[0] == "wsgi_encfail":
@@ -1410,6 +1433,13 @@ def extra(rng, tier):
         for j in range(0, n + 1):
             for aw in (0, 1, 2):
                 lines.append("asgi_encfail %d %d %d" % (n, j, aw))
+    for mode in (0, 1, 2):
+        lines.append("wsgi_iterfail %d" % mode)
+    # ASGI event stream of field-less heartbeat events, the client gone from the start
+    for n in (6, 9):
+        for aw in (1, 2, 3):
+            lines.append("asgi_sse %d 0 0 %d 2" % (n, aw))
+            lines.append("asgi_sse %d 2 0 %d 2" % (n, aw))
     # WSGI event stream whose producer fails in its own cleanup when it is closed early
     for n in range(2, top + 1):
         for k in range(1, n):
